@@ -426,6 +426,10 @@ def apply_async_splice(facts, crate, known, log):
                 continue
             bi, env_local, d = site
             j = copy.deepcopy(b.j)
+            # the creation of the future no longer stands for a run of its body (effects.py accounts for coroutines there)
+            for (dbi, dsi, _x) in b.defs.get(env_local, []):
+                if dsi != "term":
+                    j["blocks"][dbi]["stmts"][dsi]["rv"]["agg"]["spliced"] = True
             splice_await(j, bi, new_async[d].j, env_local, bool(b.j.get("coroutine")))
             nb = _rebuild(facts, crate, b, j)
             if nb.dp in new_async:
